@@ -54,6 +54,47 @@ def cq_arg(t):
     return C("AConst", T.to_coq(t))
 
 
+def cq_optvar(h):
+    return C("Some", T.cq_bytes(bytes.fromhex(h))) if h is not None else None
+
+
+def model_clause(c):
+    """is the clause (JSON description) inside the Coq clause model? (no temporal syntax)"""
+    return not c.get("no_model") and not c.get("headtime") and all(p["k"] != "temporal" for p in c["premises"] or [])
+
+
+def cq_gclause_in(c):
+    """JSON description of a clause (gen_clause) -> Run.C09.gclause"""
+    def prem(p):
+        if p["k"] in ("atom", "neg"):
+            return C("GPAtom" if p["k"] == "atom" else "GPNeg", T.cq_bytes(bytes.fromhex(p["atom"]["sym"])),
+                     [cq_gterm(a) for a in p["atom"]["args"]])
+        return C("GPEq" if p["k"] == "eq" else "GPIneq", cq_gterm(p["l"]), cq_gterm(p["r"]))
+
+    def stmt(st):
+        return C("GStmt", cq_optvar(st["var"]), T.cq_bytes(bytes.fromhex(st["fn"][1])), [cq_gterm(a) for a in st["fn"][2]])
+    return C("GClause", T.cq_bytes(bytes.fromhex(c["head"]["sym"])), [cq_gterm(a) for a in c["head"]["args"]],
+             C("Some", [prem(p) for p in c["premises"]]) if c["premises"] is not None else None,
+             [[stmt(st) for st in stage] for stage in c["transform"] or []])
+
+
+def cq_gclause_tree(t):
+    """clauseJ of harness/c09/clause.go -> Coq option gclause (None: rejected)"""
+    if t is None:
+        return None
+
+    def prem(p):
+        if p[0] in ("atom", "neg"):
+            return C("GPAtom" if p[0] == "atom" else "GPNeg", T.cq_bytes(bytes.fromhex(p[1][1])), [cq_gterm(a) for a in p[1][2]])
+        return C("GPEq" if p[0] == "eq" else "GPIneq", cq_gterm(p[1]), cq_gterm(p[2]))
+
+    def stmt(st):
+        return C("GStmt", cq_optvar(st["var"]), T.cq_bytes(bytes.fromhex(st["fn"][1])), [cq_gterm(a) for a in st["fn"][2]])
+    return C("Some", C("GClause", T.cq_bytes(bytes.fromhex(t["head"][1])), [cq_gterm(a) for a in t["head"][2]],
+                       C("Some", [prem(p) for p in t["prem"]]) if t["prem"] is not None else None,
+                       [[stmt(st) for st in stage] for stage in t["trans"]]))
+
+
 def opt_bytes(o):
     """outcome of c09_unescape / c09_escape -> Coq option (list Z); a panic counts as an error"""
     if "out" in o and o["out"].get("ok"):
@@ -197,8 +238,8 @@ def gen_interval(rng):
         return [a, b]
 
 
-def gen_premise(rng):
-    r = rng.random()
+def gen_premise(rng, temporal=True):
+    r = rng.random() * (1.0 if temporal else 0.72)
     if r < 0.3:
         return {"k": "atom", "atom": atom_json(gen_atom(rng))}
     if r < 0.45:
@@ -233,20 +274,23 @@ def gen_transform(rng):
     return stages
 
 
-def gen_clause(rng):
-    c = {"head": atom_json(gen_atom(rng)), "headtime": gen_interval(rng) if rng.random() < 0.35 else None,
+def gen_clause(rng, temporal=True):
+    """temporal=False: inside the Coq clause model (no annotation, no temporal literal)"""
+    c = {"head": atom_json(gen_atom(rng)), "headtime": gen_interval(rng) if temporal and rng.random() < 0.35 else None,
          "premises": None, "transform": None}
     if rng.random() < 0.8:
-        c["premises"] = [gen_premise(rng) for _ in range(rng.choice([1, 1, 2, 3, 4]))]
+        c["premises"] = [gen_premise(rng, temporal) for _ in range(rng.choice([1, 1, 2, 3, 4]))]
         if rng.random() < 0.35:
             c["transform"] = gen_transform(rng)
     return c
 
 
 MUT_ALPHA = b" ,:()[]{}\"'\\/.-+_#\n\tXabnxu01e9dhms%~!=@`TZ"
+CLAUSE_ALPHA = MUT_ALPHA + b"<>|!=.,  ldeot"
 
 
-def mutate_text(rng, s):
+def mutate_text(rng, s, alpha=MUT_ALPHA):
+    MUT_ALPHA = alpha
     s = bytearray(s)
     for _ in range(rng.choice([1, 1, 1, 2, 3])):
         op = rng.random()
@@ -280,6 +324,32 @@ NEAR_MISSES = [
     b"fn:pair(1,2)", b"fn:pair (1,2)", b"p (1)", b"p\n(1)", b"1 2", b"[1] [2]", b"1)", b"(1)", b"[[1], [2 : 3], {/a : []}]", b"{1 : 2}",
     b"{/a : 1, /a : 2}", b"\"\\t\\n\\\\\\\"\\'\"", b"1.0e+5", b"1.0E-5", b"1.0e+", b"-1.0", b"- 1", b"1 . 5", b"a.b(1)", b"a..b(1)", b"a.(1)",
     b"a:b(1)", b"A(1)", b"/a(1)", b"p(/a.)", b"p(/a .)", b"[/a : /b]", b"[/a :/b]", b"[/a:/b]", b"[/a : 1]", b"[/a: 1]", b"\x0c1", b"\r1\r",
+]
+
+
+CLAUSE_NEAR_MISSES = [
+    b"p(X).", b"p(X) :- q(X).", b"p(X) :- q(X),.", b"p(X) :- q(X), .", b"p(X) :- q(X),, r(X).", b"p(X) :- .", b"p(X) :-.", b"p(X)",
+    b"p(X) :- q(X)", b"p(X) :- X < 3.", b"p(X) :- X <= 3, X > 1, X >= 2.", b"p(X) :- 3 < X.", b"p(X) :- q(X) < 3.", b"p(X) :- X < q(3).",
+    b"p(X) :- X = /a.", b"p(X) :- X = /a .", b"p(X) :- X != /a/b .", b"p(X) :- X = 1.", b"p(X) :- X = 1.5.", b"p(X) :- X = 1..",
+    b"p(X) :- X = Y.", b"p(X) :- X = \"a\".", b"p(X) :- X = [1, 2].", b"p(X) :- X = fn:f(Y).", b"p(X) :- fn:f(Y) = X.", b"p(X) :- fn:f(Y).",
+    b"p(X) :- !q(X).", b"p(X) :- ! q(X).", b"p(X) :- !fn:f(X).", b"p(X) :- !X.", b"p(X) :- !!q(X).", b"p(X) :- X.", b"p(X) :- 3.",
+    b"p(X) :- q(X) = r(X).", b"p(X) :- q(X) != 1.", b"fn:f(X).", b"fn:f(X) :- q(X).", b"X.", b"/a.", b"/a .", b"p(q(X)).", b"p(fn:f(X)).",
+    b"p(X) :- q(X) |> do fn:group_by().", b"p(X) :- q(X) |> do fn:group_by(X), let Y = fn:sum(X).", b"p(X) :- q(X) |> let Y = fn:sum(X).",
+    b"p(X) :- q(X) |> let Y = fn:sum(X), let Z = fn:max(X).", b"p(X) :- q(X) |> let Y = fn:sum(X) |> let Z = fn:plus(Y, 1).",
+    b"p(X) :- q(X) |> do fn:f() |> do fn:g().", b"p(X) :- q(X) |> let Y = fn:sum(X), do fn:f().", b"p(X) :- q(X) |> do q(X).",
+    b"p(X) :- q(X) |> let Y = q(X).", b"p(X) :- q(X) |> let Y = 3.", b"p(X) :- q(X) |> let y = fn:f().", b"p(X) :- q(X) |> let _ = fn:f().",
+    b"p(X) :- q(X) |> do fn:f(),.", b"p(X) :- q(X) |> do fn:f(), .", b"p(X) :- q(X) |> .", b"p(X) :- q(X) |>.", b"p(X) :- q(X), |> do fn:f().",
+    b"p(X) :- |> do fn:f().", b"p(X) |> do fn:f().", b"p(X) :- q(X) | > do fn:f().", b"p(X) :- q(X) |> dofn:f().", b"p(X) :- q(X) |> do  fn:f().",
+    b"p(X) :- q(X) |> letY = fn:f().", b"p(X) :- q(X) |> let Y= fn:f().", b"p(X) :- q(X) |> let Y =fn:f().", b"p(X) :- q(X) |> let Y = fn:f()",
+    b"p(X) :- q(X) |> do fn:f() let Y = fn:g().", b"p(X) :- q(X) |> do fn:f(), do fn:g().", b"p(X) :- q(X) |> let Y = fn:f() |> .",
+    b"p(X):-q(X).", b"p(X) : - q(X).", b"p(X) :- q(X). ", b"p(X) :- q(X).\n", b"p(X) :- q(X). # c", b"# c\np(X).", b"p(X). q(X).",
+    b"p(X) :- q(X) r(X).", b"p(X) :- q(X), r(X),.", b"p(X) :- q(X); r(X).", b"p(X) :- X = Y = Z.", b"p(X) :- X = Y, Y != Z.", b"p(X) :- X == Y.",
+    b"p(X) :- X =< Y.", b"p(X) :- X => Y.", b"p(X) :- X <> Y.", b"p(X) :- X ! = Y.", b"p(X) :- X !=Y.", b"p(X) :- X!=Y.", b"p(X) :- X=Y.",
+    b"p(X) :- X<Y.", b"p(X) :- X<-Y.", b"p(X) :- X < -1.", b"p(X) :- X <-1.", b"p(X) :- [1] = X.", b"p(X) :- :lt(X, 3).", b"p(X) :- let(X).",
+    b"p(X) :- do(X).", b"let(X).", b"p(X) :- q(X)!", b"p(X)!", b"p(X)..", b"p(X) .", b"p(X)\n.", b"p().", b"p.", b"p(X) :- q().",
+    b"p(X) :- X = 1.e5.", b"p(X) :- X = 1.X.", b"p(X) :- X = Y.p(X).", b"p(X) :- X = Y .p(X).", b"p(/a).", b"p(/a.).", b"p(X) :- q(/a.).",
+    b"p(X) :- X = \"a.\".", b"p(X) :- X = b\"a\".", b"p(X) :- X = {/a : 1}.", b"p(X) :- X = [/a : /b].", b"p(X) :- X = [/a].", b"p(X) :- X = [/a.].",
+    b"p(X) :- X = 7d.", b"p(X) :- X = 2024-01-15.", b"p(X) :- q(X), X = fn:pair(1, 2), !r(X, \"s\") |> do fn:group_by(X), let N = fn:count().",
 ]
 
 
@@ -329,6 +399,8 @@ def run_group(ck, kind, items):
         outs = ck.run_go("c09_clause", items)
     elif kind == "parse":
         outs = ck.run_go("c09_parse", [{"text": hx(s)} for s in items])
+    elif kind == "clause_text":
+        outs = ck.run_go("c09_clause_text", [{"text": hx(s)} for s in items])
     elif kind in ("unescape", "escape"):
         outs = ck.run_go("c09_" + kind, [{"text": hx(s), "bytes": b} for s, b in items])
     res = []
@@ -344,6 +416,14 @@ def run_group(ck, kind, items):
             tree = o["out"]["tree"]
             term = coq(C("KParse", cq_tables(None, o["out"]["ptab"]), T.cq_bytes(x),
                          C("Some", cq_gterm(tree)) if tree is not None else None))
+        elif kind == "clause" and "out" in o and model_clause(x) and not o["out"]["rt"]:
+            # the clause model: printer vs String(), parser vs parse.Clause on the printed text, model round trip
+            term = coq(C("KClause", cq_tables(o["out"]["tables"], o["out"]["ptab"]), cq_gclause_in(x),
+                         T.cq_bytes(bytes.fromhex(o["out"]["s"])), cq_gclause_tree(o["out"].get("tree"))))
+        elif kind == "clause_text" and "out" in o:
+            tree = o["out"]["tree"]
+            if tree is None or not tree.get("unsup"):
+                term = coq(C("KClauseText", cq_tables(None, o["out"]["ptab"]), T.cq_bytes(x), cq_gclause_tree(tree)))
         elif kind == "unescape":
             term = coq(C("KUnescape", x[1], T.cq_bytes(x[0]), opt_bytes(o)))
         elif kind == "escape":
@@ -355,7 +435,8 @@ def run_group(ck, kind, items):
 CODES = {1: "model parser rejects what Go accepts / results differ", 2: "model parser accepts what Go rejects",
          3: "both accept, different trees", 4: "model printer differs from String()", 5: "model parser rejects the printed text",
          6: "the parsed expression does not evaluate to a constant in the model", 7: "model round trip gives a different term",
-         9: "model parser out of fuel"}
+         8: "temporal syntax, outside the clause model", 9: "model parser out of fuel"}
+CLAUSE_KINDS = ("clause", "clause_text")
 
 
 def input_json(kind, x):
@@ -367,7 +448,7 @@ def input_json(kind, x):
         return base_json(x)
     if kind == "clause":
         return x
-    if kind == "parse":
+    if kind in ("parse", "clause_text"):
         return {"text_hex": hx(x), "text": x.decode("utf-8", "replace")}
     return {"text_hex": hx(x[0]), "bytes": x[1]}
 
@@ -381,7 +462,7 @@ def input_from_json(kind, j):
         return base_from_json(j)
     if kind == "clause":
         return j
-    if kind == "parse":
+    if kind in ("parse", "clause_text"):
         return bytes.fromhex(j["text_hex"])
     return (bytes.fromhex(j["text_hex"]), j["bytes"])
 
@@ -395,15 +476,29 @@ def base_from_json(j):
 def judge_groups(ck, groups, limit=5):
     """groups: {kind: [(x, o, term)]}. Runs the Coq judge, classifies, records violations.
     Returns statistics."""
-    stats = {"rt_failures": 0, "model_disagreements": 0, "go_errors": 0}
-    terms, where = [], []
+    stats = {"rt_failures": 0, "model_disagreements": 0, "go_errors": 0, "clause_model_cases": 0, "clause_text_temporal_skipped": 0,
+             "unit_vs_clause_differs": 0}
+    terms, where, cterms, cwhere = [], [], [], []
     for kind, res in groups.items():
         for i, (x, o, term) in enumerate(res):
-            if term is not None:
+            if term is not None and kind in CLAUSE_KINDS:
+                cterms.append(term)
+                cwhere.append((kind, i))
+            elif term is not None:
                 terms.append(term)
                 where.append((kind, i))
-    verdicts = ck.run_coq("C09", "judge", terms, shard=max(25, len(terms) // 16 + 1)) if terms else []
+    # both judges run at the same time, on at most 16 shards together
+    nsh = 16
+    from concurrent.futures import ThreadPoolExecutor
+    with ThreadPoolExecutor(max_workers=2) as ex:
+        share = max(2, min(8, round(nsh * len(cterms) / max(1, len(terms) + len(cterms))))) if cterms else 0
+        f1 = ex.submit(lambda: ck.run_coq("C09", "judge", terms, shard=max(25, len(terms) // max(1, nsh - share) + 1)) if terms else [])
+        f2 = ex.submit(lambda: ck.run_coq("C09", "judge_clause", cterms, shard=max(10, len(cterms) // max(1, share) + 1), tag="clauses")
+                       if cterms else [])
+        verdicts, cverdicts = f1.result(), f2.result()
     vmap = dict(zip(where, verdicts))
+    vmap.update(zip(cwhere, cverdicts))
+    stats["clause_model_cases"] = len(cterms)
     for kind, res in groups.items():
         for i, (x, o, term) in enumerate(res):
             if kind in ("const", "atom", "term", "clause"):
@@ -423,15 +518,29 @@ def judge_groups(ck, groups, limit=5):
                                       "printed_hex": o["out"]["s"], "verdict": rt})
                     continue
             v = vmap.get((kind, i), 0)
+            if kind == "clause_text" and "out" in o and o["out"].get("clause_differs"):
+                # Go against Go: parse.Unit read one clause, parse.Clause something else
+                stats["unit_vs_clause_differs"] += 1
+                if len(ck.violations) < limit:
+                    ck.violation({"property": "C09", "kind": "parse.Clause and parse.Unit read different clauses from the same text",
+                                  "case_kind": kind, "input": input_json(kind, x), "impl": o["out"],
+                                  "no_longer_checks": "correspondence: parse.Unit stands for parse.Clause on whole texts"},
+                                 "no-failing-input-found")
+                continue
+            if v == 8 and kind == "clause_text":
+                stats["clause_text_temporal_skipped"] += 1
+                continue
             if v != 0:
                 stats["model_disagreements"] += 1
                 if len(ck.violations) < limit:
                     rep = {"property": "C09", "case_kind": kind, "input": input_json(kind, x), "impl": o.get("out", o),
                            "verdict_code": v, "verdict": CODES.get(v, "?"),
-                           "model_outputs": ck.coq_show("C09", "show " + term)[-1500:],
+                           "model_outputs": ck.coq_show("C09", ("show_clause " if kind in CLAUSE_KINDS else "show ") + term)[-1500:],
                            "kind": "correspondence model/implementation broken (theorems of Props/C09.v no longer tied to the code); "
                                    "the Go round trip itself holds on this input",
-                           "no_longer_checks": "correspondence Run.C09.judge: model Serde/{Escape,Lexer,Parse}.v + Term/Print.v vs ast / parse"}
+                           "no_longer_checks": ("correspondence Run.C09.judge_clause: model Serde/{Clause,ClauseParse}.v vs Clause.String / parse.Clause "
+                                                "(theorem parse_print_clause)") if kind in CLAUSE_KINDS else
+                                               "correspondence Run.C09.judge: model Serde/{Escape,Lexer,Parse}.v + Term/Print.v vs ast / parse"}
                     ck.violation(rep, "no-failing-input-found")
     return stats
 
@@ -456,7 +565,7 @@ def run(ck):
     ck.obligations()
     ck.build_harness()
     rng = ck.rng
-    groups_in = {"const": [], "atom": [], "term": [], "clause": [], "parse": [], "unescape": [], "escape": []}
+    groups_in = {"const": [], "atom": [], "term": [], "clause": [], "parse": [], "unescape": [], "escape": [], "clause_text": []}
     ncorpus = 0
     for c in corpus_cases():
         groups_in[c["kind"]].append(input_from_json(c["kind"], c["input"]))
@@ -474,6 +583,16 @@ def run(ck):
         groups_in["term"].append(("app", rng.choice(FNS), [gen_base(rng, 2, 0.3, 0.4) for _ in range(rng.choice([0, 1, 2, 3]))]))
     for _ in range(ck.n(600, 15000)):
         groups_in["clause"].append(gen_clause(rng))
+    # clauses inside the Coq clause model (no temporal syntax): model printer / parser / round trip besides the Go round trip
+    for _ in range(ck.n(130, 3000)):
+        groups_in["clause"].append(gen_clause(rng, temporal=False))
+    if ck.quick:
+        # the quick tier sends a sample of the model-eligible clauses to Coq (elaboration cost), thorough all of them
+        elig = [i for i, c in enumerate(groups_in["clause"]) if model_clause(c)]
+        keep = set(rng.sample(elig, min(len(elig), 330)))
+        for i in elig:
+            if i not in keep:
+                groups_in["clause"][i] = dict(groups_in["clause"][i], no_model=True)
     ck.log("generated; running the Go round trips")
     groups = {k: run_group(ck, k, groups_in[k]) for k in ("const", "atom", "term", "clause")}
     # texts for the parser correspondence: printed constants and atoms, mutants of them, hand-written near misses
@@ -489,6 +608,16 @@ def run(ck):
     for s in rng.sample(pool, min(len(pool), ck.n(60, 600))):
         texts.append(s)
     groups["parse"] = run_group(ck, "parse", texts)
+    # texts for the clause parser correspondence: near misses, mutants of printed clauses of the model's domain
+    ctexts = list(CLAUSE_NEAR_MISSES) + groups_in["clause_text"]
+    cpool = [bytes.fromhex(o["out"]["s"]) for x, o, _ in groups["clause"]
+             if "out" in o and not x.get("headtime") and all(p["k"] != "temporal" for p in x["premises"] or []) and len(o["out"]["s"]) <= 400]
+    for _ in range(ck.n(120, 3000) if cpool else 0):
+        s = mutate_text(rng, rng.choice(cpool), CLAUSE_ALPHA)
+        if (b"<" in s and re.search(rb"\.[A-Z]", s)) or re.search(rb"Package|Use|Decl", s):
+            continue      # `.Type<...>` syntax and declarations are not modelled
+        ctexts.append(s)
+    groups["clause_text"] = run_group(ck, "clause_text", ctexts)
     # escape / unescape on arbitrary byte strings
     un, es = list(groups_in["unescape"]), list(groups_in["escape"])
     ualpha = b"\\\\\\\\xxuu{{}}nt\"'`\n\r\r0123456789abcdefABCDEFg qz\x00\x7f"
